@@ -407,6 +407,22 @@ inline std::pair<Win, Win> genPlacement(Rng &g, size_t n, int placement) {
   return {a, b};
 }
 
+// relative placement class of two windows
+inline int classify(const Win &a, const Win &b) {
+  if (a.empty() && b.empty()) return P_BOTH_EMPTY;
+  if (a.empty()) return P_A_EMPTY;
+  if (b.empty()) return P_B_EMPTY;
+  if (a.end - a.start == 1) return P_A_POINT;
+  if (b.end - b.start == 1) return P_B_POINT;
+  if (a.start == b.start && a.end == b.end) return P_EQ;
+  const size_t lo = std::max(a.start, b.start), hi = std::min(a.end, b.end);
+  if (hi <= lo) return P_GAP;
+  if (hi - lo == 1) return P_TOUCH;
+  if (a.start >= b.start && a.end <= b.end) return P_A_IN_B;
+  if (b.start >= a.start && b.end <= a.end) return P_B_IN_A;
+  return a.start < b.start ? P_PARTIAL_L : P_PARTIAL_R;
+}
+
 // ------------------------------------------------------------------ agree
 // Per-interval scale in the midpoint representation (non-negative numbers):
 // the sum of the absolute values of the terms of the defining formula.
@@ -578,6 +594,62 @@ inline Verdict agreeScalar(const T &res, const R &exact, const R &scale) {
     }
     return v;
   }
+}
+
+// ------------------------------------------------------ deep snapshots
+template <typename T>
+inline bool sameBits(const T &a, const T &b) {
+  if constexpr (ST<T>::exact) {
+    return vq::peek(a) == vq::peek(b);
+  } else {
+    if (std::isnan(a) || std::isnan(b)) return std::isnan(a) && std::isnan(b);
+    return a == b && std::signbit(a) == std::signbit(b);
+  }
+}
+
+template <typename T>
+struct Snap {
+  bool live = false;
+  const void *gridPtr = nullptr;
+  std::vector<T> grid;
+  size_t start = 0, end = 0;
+  std::vector<T> coef;
+  bool operator==(const Snap &o) const {
+    if (live != o.live) return false;
+    if (!live) return true;
+    if (gridPtr != o.gridPtr || start != o.start || end != o.end ||
+        grid.size() != o.grid.size() || coef.size() != o.coef.size())
+      return false;
+    for (size_t i = 0; i < grid.size(); i++)
+      if (!sameBits(grid[i], o.grid[i])) return false;
+    for (size_t i = 0; i < coef.size(); i++)
+      if (!sameBits(coef[i], o.coef[i])) return false;
+    return true;
+  }
+};
+
+template <typename T, size_t o>
+Snap<T> snapOf(const std::optional<bspline::Spline<T, o>> &s) {
+  Snap<T> r;
+  if (!s) return r;
+  r.live = true;
+  const auto &sup = s->getSupport();
+  r.gridPtr = sup.getGrid().getData().get();
+  r.grid.assign(sup.getGrid().begin(), sup.getGrid().end());
+  r.start = sup.getStartIndex();
+  r.end = sup.getEndIndex();
+  for (const auto &cs : s->getCoefficients())
+    for (const auto &c : cs) r.coef.push_back(c);
+  return r;
+}
+
+
+template <typename T, size_t o>
+Snap<T> snapOf(const bspline::Spline<T, o> &s) {
+  std::optional<bspline::Spline<T, o>> tmp(s);
+  Snap<T> r = snapOf(tmp);
+  r.gridPtr = s.getSupport().getGrid().getData().get();
+  return r;
 }
 
 // --------------------------------------------------------------- rendering
